@@ -40,7 +40,7 @@ pub struct Mutant {
     pub spec: XzSpec,
 }
 
-fn refit_header(b: &mut xz::BlockSpec) {
+pub fn refit_header(b: &mut xz::BlockSpec) {
     // keep the header self-consistent after a size field changed its length
     let keep_extra = 0usize;
     let mut body = 2;
